@@ -140,9 +140,19 @@ func keys(m map[byte]bool) []string {
 	return out
 }
 
-func defaultFallbacks() map[rune]string {
+// the documented default fallbacks, snapshotted once at start-up: a screen must
+// not be able to change what later screens start with
+var initialFallbacks = func() map[rune]string {
 	m := map[rune]string{}
 	for k, v := range tcell.RuneFallbacks {
+		m[k] = v
+	}
+	return m
+}()
+
+func defaultFallbacks() map[rune]string {
+	m := map[rune]string{}
+	for k, v := range initialFallbacks {
 		m[k] = v
 	}
 	return m
